@@ -148,6 +148,27 @@ def check(ctx, rep):
     wr = calls(sl, 'self.bytecode.write')
     rep.ob('store.memory-check-before-write', 'store_line checks free memory before writing the line',
            len(oom) == 1 and len(wr) == 1 and oom[0].lineno < wr[0].lineno, '', ctx.where(sl))
+    # the link in the header of the stored line is the address of the byte after *that* line: code_start + 1 +
+    # (position the stream was moved to for the write) + (bytes written); the memory check uses the same sum
+    from ..algebra import lin
+    if len(wr) == 1:
+        seeks = [c for c in calls(sl, 'self.bytecode.seek') if c.lineno < wr[0].lineno and len(c.args) == 1]
+        packs = [c for c in ast.walk(wr[0]) if isinstance(c, ast.Call) and norm(c.func) == 'struct.pack' and len(c.args) == 3]
+        lens = [a for a in own_nodes(sl) if isinstance(a, ast.Assign) and norm(a.targets[0]) == 'length' and isinstance(a.value, ast.Call)
+                and norm(a.value.func) == 'len']
+        ok = bool(seeks) and len(packs) == 1 and len(lens) == 1
+        detail = ''
+        if ok:
+            at = norm(max(seeks, key=lambda c: c.lineno).args[0])
+            want = lin(ast.parse('self.code_start + 1 + %s + length' % at, mode='eval').body)
+            got = lin(packs[0].args[2])
+            ok = got == want
+            detail = 'link = %s, but the line is written at `%s`' % (norm(packs[0].args[2]), at)
+        rep.ob('links.next-line-address', 'store_line: link field = code_start + 1 + write position + line length', ok, detail, ctx.where(wr[0]))
+        if oom:
+            cmpn = [f.cond for f in ctx.flow(sl).facts(oom[0]) if f.pol and isinstance(f.cond, ast.Compare)]
+            okm = bool(cmpn) and len(packs) == 1 and lin(cmpn[-1].left) == lin(packs[0].args[2])
+            rep.ob('links.memory-check-same-address', 'the free-memory test compares the same end address with the stack start', okm, '', ctx.where(oom[0]))
     und = [r for r, c in ctx.raises_in(sl) if c == 'UNDEFINED_LINE_NUMBER']
     rep.ob('store.empty-line-deletes', 'an empty line deletes an existing line or raises Undefined line number before any change',
            len(und) == 1 and ctx.flow(sl).knows(und[0], 'empty and (not deleteable)', True) and und[0].lineno < calls(sl, 'self.truncate')[0].lineno, '', ctx.where(sl))
@@ -191,6 +212,10 @@ def variants(ctx):
            in_fn('set_memory', lambda fn: mu.remove_stmt(fn, mu.text_is('self.rebuild_line_dict()'))), expect='pairing.poke'),
         Va('insertion-point-max', 'break', PROGRAM,
            in_fn('find_pos_line_dict', lambda fn: mu.replace_expr(fn, mu.text_is('self.line_numbers[min(beyond)]'), 'self.line_numbers[max(beyond)]')), expect='order.insertion'),
+        Va('link-from-old-end', 'break', PROGRAM,
+           in_fn('store_line', lambda fn: mu.replace_expr(fn, mu.text_is("struct.pack('<BH', 0, self.code_start + 1 + pos + length)"), "struct.pack('<BH', 0, self.code_start + 1 + afterpos + length)")), expect='links.next-line-address'),
+        Va('neutral-link-commuted', 'neutral', PROGRAM,
+           in_fn('store_line', lambda fn: mu.replace_expr(fn, mu.text_is("struct.pack('<BH', 0, self.code_start + 1 + pos + length)"), "struct.pack('<BH', 0, pos + length + 1 + self.code_start)"))),
         Va('neutral-log', 'neutral', PROGRAM, in_fn('delete', lambda fn: mu.insert_first(fn, "logging.debug('delete')"))),
     ]
 
